@@ -7,18 +7,31 @@ use core::str::FromStr;
 use dashu_base::{BitTest, Signed};
 use dashu_float::{DBig, FBig};
 use dashu_int::{IBig, Sign};
-use proc_macro2::TokenStream;
+use proc_macro2::{TokenStream, TokenTree};
 use quote::quote;
 
 fn panic_fbig_syntax() -> ! {
     panic!("Incorrect syntax, please refer to the docs for acceptable float literal formats.")
 }
 
-pub fn parse_binary_float(static_: bool, embedded: bool, input: TokenStream) -> TokenStream {
+/// Concatenate the tokens of a float literal. Rust splits a literal like `0x1.8p-3` into
+/// several tokens, but two number tokens never follow each other within one literal.
+fn concat_tokens(input: TokenStream) -> String {
     let mut value_str = String::new();
-    input
-        .into_iter()
-        .for_each(|tt| value_str.push_str(&tt.to_string()));
+    let mut prev_is_punct = true;
+    for tt in input {
+        let is_punct = matches!(tt, TokenTree::Punct(_));
+        if !is_punct && !prev_is_punct {
+            panic_fbig_syntax()
+        }
+        prev_is_punct = is_punct;
+        value_str.push_str(&tt.to_string());
+    }
+    value_str
+}
+
+pub fn parse_binary_float(static_: bool, embedded: bool, input: TokenStream) -> TokenStream {
+    let value_str = concat_tokens(input);
 
     // parse and remove the sign
     let mut value_str = value_str.as_str();
@@ -91,10 +104,7 @@ pub fn parse_binary_float(static_: bool, embedded: bool, input: TokenStream) -> 
 }
 
 pub fn parse_decimal_float(static_: bool, embedded: bool, input: TokenStream) -> TokenStream {
-    let mut value_str = String::new();
-    input
-        .into_iter()
-        .for_each(|tt| value_str.push_str(&tt.to_string()));
+    let value_str = concat_tokens(input);
 
     let f = DBig::from_str(&value_str).unwrap_or_else(|_| panic_fbig_syntax());
     let prec = f.precision();
